@@ -49,9 +49,15 @@ var props = map[string]propCfg{
 	"C18": {Level: "exploration",
 		Quick:    tierCfg{Checks: 48000, Shards: 16, Guard: 10 * time.Minute},
 		Thorough: tierCfg{Checks: 1600000, Shards: 16, Guard: 60 * time.Minute}},
-	"C02": {Level: "exploration",
+	"C02": {Level: "exploration", DeathIsViolation: true,
 		Quick:    tierCfg{Checks: 800, Shards: 16, Guard: 15 * time.Minute},
 		Thorough: tierCfg{Checks: 32000, Shards: 16, Guard: 120 * time.Minute}},
+	"C04": {Level: "exploration", DeathIsViolation: true,
+		Quick:    tierCfg{Checks: 800, Shards: 16, Guard: 15 * time.Minute},
+		Thorough: tierCfg{Checks: 32000, Shards: 16, Guard: 120 * time.Minute}},
+	"C07": {Level: "exploration", DeathIsViolation: true,
+		Quick:    tierCfg{Checks: 1600, Shards: 16, Guard: 15 * time.Minute},
+		Thorough: tierCfg{Checks: 64000, Shards: 16, Guard: 120 * time.Minute}},
 	"C12": {Level: "exploration",
 		Quick:    tierCfg{Checks: 3200, Shards: 16, Guard: 10 * time.Minute},
 		Thorough: tierCfg{Checks: 64000, Shards: 16, Guard: 90 * time.Minute}},
